@@ -212,6 +212,58 @@ Definition cleanup_ok (rid : N) (out : list gupd) : bool :=
 Definition events_consumed (evs rest : list ev) : N := N.of_nat (length evs - length rest).
 
 (* ====================================================================== *)
+(* Back-pressure from downstream (C07).
+     src/comms.rs  Gate::update_data, direct-update mode: `direct.direct_update(update.clone()).await`
+   hands the update to the receiving unit and suspends the sender until that unit
+   returns. read_from_router (the two sends of the post-loop block) and process_msg
+   await the call as it is: no time limit, no select!, nothing that could drop the
+   future. So an update the receiving end does not take at once is taken later; the
+   sender does nothing in between.
+
+   [waits]: for the i-th update the session hands over, for how long (ms on the
+   sender's clock) the receiving end sits on it before it takes it; positions past
+   the end of the list wait 0 ms. [deliver] is what the receiving end has got, each
+   update with the sender's clock at the moment it was taken. *)
+Fixpoint deliver (waits : list N) (t : N) (out : list gupd) : list (N * gupd) :=
+  match out with
+  | [] => []
+  | g :: out' =>
+      let w := match waits with [] => 0 | w :: _ => w end in
+      (t + w, g) :: deliver (match waits with [] => [] | _ :: ws => ws end) (t + w) out'
+  end.
+Definition received (waits : list N) (out : list gupd) : list gupd := map snd (deliver waits 0 out).
+(* the sender's clock when the last update has been taken: the task does not return earlier *)
+Definition finished_at (waits : list N) (out : list gupd) : N :=
+  match last (deliver waits 0 out) with Some (t, _) => t | None => 0 end.
+
+(* The receiving end of the check (StreamFixture::hold_updates_after): when the reader
+   has handed out exactly [h_pos] read events and is asked for more, it decides to take
+   [h_more] further updates and then to sit on the next one for [h_for] ms. *)
+Record hold := MkHold { h_pos : nat; h_more : nat; h_for : N }.
+
+(* which update that is, counted over everything the session hands over; None = the
+   session ended within the first [h_pos] events (the reader is not asked again) *)
+Definition hold_index (parse : list N -> option msg) (rid : N) (evs : list ev) (h : hold) (s0 : sess) : option nat :=
+  match run_from parse true THang rid (take (h_pos h) evs) s0 with
+  | Done EndTerm _ s _ => Some (length (s_out s) + h_more h)%nat
+  | _ => None
+  end.
+Definition waits_of (idx : option nat) (d : N) : list N :=
+  match idx with Some i => replicate i 0 ++ [d] | None => [] end.
+
+(* NOT the code - what a time limit on the hand-over would do (the sender gives up on an
+   update the receiving end holds for more than [limit] ms); only there to show that the
+   statements about [received] would notice one. *)
+Fixpoint received_limited (limit : N) (waits : list N) (out : list gupd) : list gupd :=
+  match out with
+  | [] => []
+  | g :: out' =>
+      let w := match waits with [] => 0 | w :: _ => w end in
+      (if N.ltb limit w then [] else [g])
+        ++ received_limited limit (match waits with [] => [] | _ :: ws => ws end) out'
+  end.
+
+(* ====================================================================== *)
 (* Unit level metrics of the connection (C15): a second record, next to the
    state machine's [metrics] of BmpModel, for what the connection handler
    itself counts.
